@@ -109,3 +109,74 @@ Proof.
   change (key64 FLT_MAX64) with 5183643170566569984%Z.
   unfold FLT_MAX64 in Hmag. cbn [negb andb]. destruct (sign32 r); split; lia.
 Qed.
+
+(* ---------- round32 (widen32 r) = r : widening is exact, so rounding back is the identity ---------- *)
+Lemma fields64 (s : bool) E M : E < 2048 -> M < 2^52 ->
+  let b := (if s then 2^63 else 0) + E * 2^52 + M in
+  sign64 b = s /\ exp64 b = E /\ man64 b = M.
+Proof.
+  intros HE HM b. subst b. unfold sign64, exp64, man64. rewrite pow2_63, pow2_52 in *.
+  destruct s; repeat split; lia.
+Qed.
+
+Lemma rne_exact q shift : 0 < shift -> rne (q * 2^shift) shift = q.
+Proof.
+  intro Hs. unfold rne.
+  assert (Hp : 2^shift <> 0) by (apply N.pow_nonzero; discriminate).
+  rewrite N.div_mul by assumption. rewrite N.mod_mul by assumption.
+  destruct (N.eqb_spec shift 0); [lia|].
+  assert (0 < 2^(shift - 1)) by (apply N.neq_0_lt_0; apply N.pow_nonzero; discriminate).
+  destruct (N.ltb_spec (2^(shift-1)) 0); [lia|]. destruct (N.eqb_spec 0 (2^(shift-1))); [lia|]. reflexivity.
+Qed.
+
+Lemma round_widen r : r < 2^32 -> finite32 r = true -> round32 (widen32 r) = Ok r.
+Proof.
+  intros Hr Hfin. unfold finite32 in Hfin.
+  assert (He : exp32 r < 255).
+  { assert (exp32 r < 256) by (unfold exp32; apply N.mod_lt; discriminate).
+    destruct (N.eqb_spec (exp32 r) 255); [discriminate|lia]. }
+  assert (Hm : man32 r < 2^23) by (unfold man32; apply N.mod_lt; discriminate).
+  assert (Hdec : r = (if sign32 r then 2^31 else 0) + exp32 r * 2^23 + man32 r).
+  { unfold sign32, exp32, man32 in *. rewrite pow2_31, pow2_23 in *. change (2^32) with 4294967296 in Hr.
+    destruct (N.leb_spec 2147483648 r); lia. }
+  unfold widen32.
+  destruct (N.eqb_spec (exp32 r) 255) as [E|_]; [lia|].
+  destruct (N.eqb_spec (exp32 r) 0) as [E0|E0].
+  - destruct (N.eqb_spec (man32 r) 0) as [M0|M0].
+    + (* zero *)
+      destruct (fields64 (sign32 r) 0 0) as (S1 & S2 & S3); [reflexivity|reflexivity|].
+      replace ((if sign32 r then 2 ^ 63 else 0) + 0 * 2 ^ 52 + 0) with (if sign32 r then 2^63 else 0) in * by lia.
+      unfold round32. rewrite S1, S2. cbn [N.eqb]. f_equal. symmetry. etransitivity; [exact Hdec|]. rewrite E0, M0. lia.
+    + (* subnormal single *)
+      destruct (size_bounds (man32 r)) as [[K1 K2] [K3 K4]]; [lia|assumption|].
+      set (k := N.size (man32 r)) in *.
+      assert (Hpow : 2^52 = 2^(k-1) * 2^(53-k)) by (rewrite <- N.pow_add_r; f_equal; lia).
+      assert (Hpos : 0 < 2^(53-k)) by (apply N.neq_0_lt_0; apply N.pow_nonzero; discriminate).
+      assert (Hge : 2^52 <= man32 r * 2^(53-k)) by (rewrite Hpow; apply N.mul_le_mono_r; assumption).
+      assert (Hlt : man32 r * 2^(53-k) < 2 * 2^52).
+      { replace (2 * 2^52) with (2^k * 2^(53-k)).
+        - apply N.mul_lt_mono_pos_r; assumption.
+        - rewrite <- N.pow_add_r. replace (k + (53 - k)) with 53 by lia. reflexivity. }
+      destruct (fields64 (sign32 r) (k + 873) (man32 r * 2^(53-k) - 2^52)) as (S1 & S2 & S3); [lia|lia|].
+      cbv zeta in S1, S2, S3.
+      unfold round32. rewrite S1, S2, S3.
+      destruct (N.eqb_spec (k + 873) 2047); [lia|]. destruct (N.eqb_spec (k + 873) 0); [lia|].
+      destruct (N.leb_spec 897 (k + 873)); [lia|].
+      replace (2^52 + (man32 r * 2^(53-k) - 2^52)) with (man32 r * 2^(53-k)) by lia.
+      replace (29 + (897 - (k + 873))) with (53 - k) by lia.
+      rewrite rne_exact by lia. f_equal. symmetry. etransitivity; [exact Hdec|]. rewrite E0. lia.
+  - (* normal single *)
+    assert (HM : man32 r * 2^29 < 2^52).
+    { change (2^52) with (2^23 * 2^29). apply N.mul_lt_mono_pos_r; [reflexivity|assumption]. }
+    destruct (fields64 (sign32 r) (exp32 r + 896) (man32 r * 2^29)) as (S1 & S2 & S3); [lia|assumption|].
+    cbv zeta in S1, S2, S3.
+    unfold round32. rewrite S1, S2, S3.
+    destruct (N.eqb_spec (exp32 r + 896) 2047); [lia|]. destruct (N.eqb_spec (exp32 r + 896) 0); [lia|].
+    destruct (N.leb_spec 897 (exp32 r + 896)); [|lia].
+    replace (2^52 + man32 r * 2^29) with ((2^23 + man32 r) * 2^29) by (change (2^52) with (2^23 * 2^29); lia).
+    rewrite rne_exact by lia.
+    replace ((exp32 r + 896 - 897) * 2^23 + (2^23 + man32 r)) with (exp32 r * 2^23 + man32 r) by lia.
+    destruct (N.leb_spec (255 * 2^23) (exp32 r * 2^23 + man32 r)) as [H9|H9].
+    + rewrite pow2_23 in *. lia.
+    + f_equal. symmetry. etransitivity; [exact Hdec|]. lia.
+Qed.
